@@ -455,7 +455,12 @@ func (b *BetweenExpr) SQL() string {
 
 func (s *SelectorExpr) SQL() string {
 	p := exprPrec(s)
-	return paren(p, s.Expr) + "." + s.Ident.SQL()
+	e := paren(p, s.Expr)
+	if _, ok := s.Expr.(*IntLiteral); ok {
+		// "1.f" would be lexed as the float "1." followed by "f".
+		e += " "
+	}
+	return e + "." + s.Ident.SQL()
 }
 
 func (i *IndexExpr) SQL() string {
